@@ -149,6 +149,8 @@ func (e Engine) Shrink(x any, stillFails func(any) bool) any {
 	for changed := true; changed && time.Now().Before(deadline); {
 		changed = false
 		changed = try(func(d *Case) bool { ok := d.Twice; d.Twice = false; return ok }) || changed
+		changed = try(func(d *Case) bool { ok := d.Restart; d.Restart = false; return ok }) || changed
+		changed = try(func(d *Case) bool { ok := d.Retry > 0; d.Retry = 0; return ok }) || changed
 		changed = try(func(d *Case) bool { ok := d.Lists != nil; d.Lists = nil; return ok }) || changed
 		changed = try(func(d *Case) bool {
 			if d.Lists == nil {
